@@ -26,9 +26,9 @@ TECHNIQUE = ("differential runtime monitor around every copy call: content tree 
              "id policy check against a raw HDF5 id scan of both files, whole-file snapshots around refused copies, "
              "tree of one side re-read after random mutations of the other")
 RULE = ("Case = one copy call: kind in {block, data_array, data_frame, tag, multi_tag, section->file, section->section, property} x "
-        "{keep ids, fresh ids} x {default name, new name} x {same parent, other parent of the same file, other file} x "
+        "{keep ids, fresh ids} x {default name, new name, existing name, illegal name (slash)} x {same parent, other parent of the same file, other file} x "
         "{recursive, shallow} for sections, on a fixture with every entity kind grown by 0-40 random valid operations, followed by "
-        "0-6 mutations of the copy or of the source.  Distinct by (kind, id policy, name policy, destination, children flag, "
+        "0-6 mutations of the copy or of the source; every link list of source and copy must agree with its iteration (membership, lookup by id).  Distinct by (kind, id policy, name policy, destination, children flag, "
         "outcome in {copied, refused}, set of internal link roles present in the source tree, mutated side); trivial = none.")
 ASSUMPTIONS = ["links that leave the copied subtree (metadata, a copied tag's references, sources of a copied array) are compared by "
                "content of the target, not by identity (A7): an HDF5 object copy embeds them",
